@@ -186,7 +186,7 @@ class BodyMarkuper:
 
     def iter_markup(self, chunk: bytes) -> Iterable[Tuple[str, Tuple[int, int]]]:
         if self.stopped:
-            raise StopMarkupException()
+            return
         cur_meth = self.cur_meth
         abs_start_section = self.abs_start_section
         start_next_sec = 0
